@@ -283,6 +283,21 @@ def run(ck):
     ok = 'process_args = inspect.getfullargspec(processor).args' in src and 'processor(**process_args_values).run_system(system)' in src and \
         'for processor in self.processor_list:' in src and not any(isinstance(n, (ast.Break, ast.Continue, ast.Return)) for l in ast.walk(rsys) if isinstance(l, ast.For) for n in ast.walk(l))
     ck.ob('KW-wiring', gp.loc(rsys), ok, 'every processor of the list is constructed from the matching keywords and run on the system, in order', key='KW-wiring|run')
+    # the keywords handed to a processor: every given option the constructor accepts, with its value -- selected by name only (0 and '' are values)
+    pav = single_def(rsys, 'process_args_values')
+    ok = isinstance(pav, ast.DictComp) and len(pav.generators) == 1
+    if ok:
+        g_ = pav.generators[0]
+        it_ = u(g_.iter)
+        if isinstance(g_.target, ast.Tuple) and len(g_.target.elts) == 2 and it_ in ('kwargs.items()', 'self.kwargs.items()'):
+            kv_, vals_ = u(g_.target.elts[0]), {u(g_.target.elts[1])}
+        else:
+            kv_, vals_ = u(g_.target), set()
+            ok = it_ in ('kwargs', 'kwargs.keys()', 'self.kwargs', 'self.kwargs.keys()')
+        vals_ |= {'kwargs[{}]'.format(kv_), 'self.kwargs[{}]'.format(kv_)}
+        ok = ok and u(pav.key) == kv_ and u(pav.value) in vals_ and [u(c) for c in g_.ifs] == ['{} in process_args'.format(kv_)]
+    ck.ob('KW-wiring', gp.loc(rsys), ok, 'a processor receives every option it accepts, whatever its value: the keywords are filtered by name only (`{}`)'.format(u(pav)[:140] if pav is not None else '?'),
+          key='KW-wiring|run|by-name-only')
     # ------------------------------------------------------------ SIB: every producer of the contact list uses the layout the consumer unpacks
     cmm = ck.index.mod('vermouth/rcsu/contact_map.py')
     rgm_ = cmm.func('read_go_map')
